@@ -97,6 +97,25 @@ CHECKS.update({
         'DESIGN.md section 4 C07'),
 })
 
+CHECKS.update({
+    'C10': (
+        'Coq proof (codec round trip for every encoding; soundness of the verified topology checker) + vm_compute correspondence',
+        'Theorems C10_* prove that decoding what a writer stored gives back the faces for every encoding (0/1-based, NaN / '
+        '_FillValue attribute / no fill, either dimension first) and that the executable checker topology_okb accepts only '
+        'tables in which a face\'s k-th edge joins its k-th consecutive node pair, the edge list is duplicate-free and covers '
+        'exactly the sides of the faces, an edge lists exactly the faces containing it and adjacency is symmetric and means '
+        'sharing an edge.  Per run each generated mesh is written under every encoding and with sampled / all 16 subsets of '
+        'the optional tables; face_node_array must equal the mesh, supplied tables must be used as given, the raw stored cells '
+        'are decoded by the model and diffed, the implementation\'s five tables go through the verified checker (edge numbering '
+        'of derived tables is Python-set order, so they are validated against the relation) and the derivations that are '
+        'deterministic given their inputs (face_edge from edge_node, edge_face from face_edge, face_face from edge_face) are '
+        'compared exactly with the model.',
+        'Trusted: Coq kernel; model Topology.v; python restatement of the relation (cross-checked against the verified '
+        'checker per case).  Without any edge dimension (none declared or implied) the code refuses edge-based tables; that is '
+        'outside the property\'s quantifier and only counted.',
+        'DESIGN.md section 4 C10'),
+})
+
 NOT_YET = 'check not built yet in this session (work in progress; the design in DESIGN.md section 4 applies)'
 
 
